@@ -6,6 +6,7 @@ use super::bb_graph::*;
 use super::bb_oneshot::*;
 use super::inc_config::*;
 use super::inc_fs::*;
+use super::inc_incr::*;
 use super::projset::*;
 use super::prop::*;
 use super::report::*;
@@ -74,6 +75,8 @@ pub fn main() -> i32 {
     };
     match property.as_str() {
         "C01" => c01(&ctx),
+        "C02" => c02(&ctx),
+        "C03" => c03(&ctx),
         "C04" => c04(&ctx),
         "C06" => c06(&ctx),
         "C07" => c07(&ctx),
@@ -82,6 +85,7 @@ pub fn main() -> i32 {
         "C10" => c10(&ctx),
         "C11" => c11(&ctx),
         "C12" => c12(&ctx),
+        "C13" => c13(&ctx),
         "C14" => c14(&ctx),
         "C15" => c15(&ctx),
         "C17" => c17(&ctx),
@@ -513,6 +517,13 @@ fn inc_replays(ctx: &Ctx, report: &mut Report) -> u64 {
                     }
                 }
             }
+            "INC-c02" | "INC-c03" | "INC-c13" => match replay_inc(r) {
+                Ok(res) => Some(res),
+                Err(e) => {
+                    report.infra_errors.push(e);
+                    None
+                }
+            },
             "INC-c15" => match replay_c15(r) {
                 Ok(res) => Some(res),
                 Err(e) => {
@@ -634,5 +645,54 @@ fn c15(ctx: &Ctx) -> i32 {
             report.fail(f);
         }
     }
+    report.finish()
+}
+
+fn inc_part(ctx: &Ctx, report: &mut Report, which: &'static str, neutral: bool, cases: u32, rule: &str, stream: u64) {
+    if ctx.replay.is_some() {
+        return;
+    }
+    let pr = PropRun {
+        ctx,
+        engine: "INC",
+        rule,
+        total_cases: cases,
+        threads: ctx.threads,
+        max_shrink_iters: 1500,
+        stream,
+    };
+    let (part, failures) = run_prop(&pr, || inc_case(neutral), |c: &IncCase| eval_inc(c, which));
+    report.add(part);
+    for f in failures {
+        report.fail(f);
+    }
+}
+
+fn c02(ctx: &Ctx) -> i32 {
+    let mut report = Report::new(ctx, "exploration");
+    report.assume("reference snapshot model: independent walker (std read_dir, own .zinoma pruning and suffix rule) + stdout of each declared command in its declaring directory; files only (no symlinks) in these trees; distinct modification times forced with utimensat");
+    inc_replays(ctx, &mut report);
+    inc_part(ctx, &mut report, "c02", false, ctx.tier.pick(1500, 30_000),
+        "declared resources (src dir with 14 extension declarations, optional second files resource with a single file, optional cmd_stdout, optional outputs, optional resources inherited through X.output from a producer in the same / an imported project, identical command text and relative paths in both projects) x generated tree x 1-6 edits (20 operation kinds: same-length rewrite, rewrite with restored mtime, append, truncate, touch, delete, rename within / out, create matching / non-matching, command source edits, look-alike edits, edits under .zinoma, byte flips beyond 1 KiB / 64 KiB, output edits, producer output edits) between two calls of the real incremental::run; Skipped => model says set equal, each file mtime-or-content equal, each command same text; non-trivial = the model snapshot changed; distinct = layout x operation set x #resources",
+        102);
+    report.finish()
+}
+
+fn c03(ctx: &Ctx) -> i32 {
+    let mut report = Report::new(ctx, "exploration");
+    report.assume("premise 'state could be computed and stored' checked by the harness: all denoted paths valid UTF-8, every declared command exits 0");
+    inc_replays(ctx, &mut report);
+    inc_part(ctx, &mut report, "c03", true, ctx.tier.pick(1000, 20_000),
+        "same layouts as C02 with histories that leave every declared resource unchanged (touch, files created outside the denoted set, look-alike edits in the other project, edits under .zinoma, no-ops) and 2-4 consecutive invocations of the real incremental::run: unchanged + storable => Skipped and the script future never polled; non-trivial = >= 2 resources / multi-project / colliding command text / >= 3 invocations",
+        103);
+    report.finish()
+}
+
+fn c13(ctx: &Ctx) -> i32 {
+    let mut report = Report::new(ctx, "exploration");
+    inc_replays(ctx, &mut report);
+    inc_part(ctx, &mut report, "c13", false, ctx.tier.pick(800, 15_000),
+        "producer/consumer arrangements (same project, imported project, chain of two producers in the imported project; identical relative paths and command texts in both projects) x edits of producer outputs, of look-alikes in the consumer's project and of command sources; structural: resolved consumer depends on X and its input is own resources followed by X's outputs bound to X's directory; behavioural: producer-output change => consumer runs, unchanged => skipped; non-trivial = cross-project with a colliding path or command text",
+        113);
     report.finish()
 }
